@@ -35,14 +35,16 @@ LEVEL_NOTE = (
     "Trusted: hashlib PBKDF2/SHA-256, the AES primitive of `cryptography`, pyexpat, and the independent writer, which is "
     "self-tested on every run against the 6 ETS exports (its signature equals the Signature attribute; its reader recovers the "
     "plaintexts asserted in keyring_test.py). xknx's pure function hash_keyring_password is memoised per password by the harness "
-    "(the real function computes every first value). A mutation is judged iff the independent canonical stream of the signed "
-    "content changes; it is violated only if the tampered file verifies (loads, or fails only after verification). Wrong passwords "
+    "(the real function computes every first value). A mutation is judged iff the signed content changes as a structure (element names, signed attributes "
+    "sorted by name, nesting, order; independent of any length-octet convention); it is violated only if the tampered file verifies (loads, or fails only after verification). Wrong passwords "
     "are ones whose PBKDF2-HMAC key differs (a trailing NUL, or a >64-octet password and its SHA-256, are the same HMAC key by "
     "construction of the format and are not used). The exception "
     "type of a rejection is recorded, not judged. Signed values longer than 255 octets: the "
     "writer signs under 5 conventions for the one-octet length (mod 256, saturate, truncate, skip, mod-256-truncate); only if the "
     "loader accepts the original under one of them are tampered copies (inside / beyond octet 255, original signature) judged and "
-    "must be refused; otherwise the rule is vacuous and counted. Text nodes, comments, PIs, xmlns, formatting of Signature "
+    "must be refused; otherwise the rule is vacuous and counted. Record folding: 7 crafted valid keyrings (short strings only) whose following "
+    "attribute records are folded into one 256*k-octet-longer value / attribute name / element name (a collision for a "
+    "length-mod-256 walk) must be refused with the old Signature; the reverse (split) is judged like the long values. Text nodes, comments, PIs, xmlns, formatting of Signature "
     "and metadata (Project/CreatedBy) are exercised and recorded, not judged."
 )
 SHARDS = {"quick": 1, "thorough": 16}
@@ -438,9 +440,10 @@ def tree_mutations(root: W.Node, rng, thorough: bool):
                 m.at(path).attrs.append([key, value])
                 yield "u-child-attr-" + key.replace(":", "-"), {"path": path, "element": node.name}, m, True
     # strings that do not fit the one-octet length prefix
-    m = root.copy()
-    m.set("Project", "P" * 300)
-    yield "u-value-longer-than-255", {}, m, True
+    for n in (256, 300, 512):
+        m = root.copy()
+        m.set("Project", "P" * n)
+        yield "value-longer-than-255", {"path": (), "element": root.name, "attr": "Project", "how": f"{n}-octets"}, m, False
 
 
 def text_mutations(data: bytes, rng):
@@ -479,7 +482,7 @@ def run_case(ctx, env: Env, source: str, label, root: W.Node, style: W.Style, pr
     password = project.password
     thorough = not ctx.quick
     data = W.serialize(root, style)
-    base_stream, base_ok = W.signed_stream(root)
+    base_canon = W.canon(root)
     wit = {"source": source, "case": label, "password": password, "style": style.describe()}
 
     # ---- A. the untouched file: must load, content must be exact ---------------------
@@ -566,8 +569,9 @@ def run_case(ctx, env: Env, source: str, label, root: W.Node, style: W.Style, pr
     # ---- C. single mutations -------------------------------------------------------------
     n_mut = 0
     for kind, detail, mroot, force_unjudged in tree_mutations(root, rng, thorough):
-        stream, ok = W.signed_stream(mroot)
-        judged = not force_unjudged and ok and stream != base_stream
+        # judged iff the signed content differs as a structure (names, signed attributes, nesting, order); this does not
+        # depend on how a string longer than 255 octets would be length-prefixed
+        judged = not force_unjudged and W.canon(mroot) != base_canon
         mdata = W.serialize(mroot, style)
         outcome, res = env.load(mdata, password)
         n_mut += 1
@@ -745,6 +749,137 @@ def _find_long(root: W.Node, where) -> W.Node:
     return found[idx or 0]
 
 
+def _letters(n: int, salt: str) -> str:
+    return ((salt + "abcdefghijklmnopqrstuvwxyzABCDEFGHIJKLMNOPQRSTUVWXYZ") * (n // 20 + 2))[:n]
+
+
+def fold_cases():
+    """(label, kind, original tree builder result) for the record-folding tampers.
+
+    With a one-octet length, a string of 256*k octets more than its original length hashes (under a length-mod-256 walk)
+    like the short string followed by further length-prefixed records. Each case is a validly signed keyring with only
+    short strings, plus the tampered twin in which the records of the following attributes are folded into one string
+    (an attribute value, an attribute name, an element name), the attributes removed and the Signature kept.
+    Length octets used inside strings are printable ASCII (and letters where the string is an XML name).
+    """
+    rng = random.Random("C31/fold")
+    cases = []
+
+    def project() -> W.Project:
+        p = W.Project("", "ETS 6.1.0", "2024-03-01T10:11:12", W.CORNER_PASSWORD)
+        p.backbone = W.PBackbone("224.0.23.12", 1000, rng.randbytes(16))
+        p.interfaces = [W.PInterface(0x1001, "Tunneling", 0x1000, 2, "tunnel-pass", "auth-code", [(2305, [0x1001, 0x1007])])]
+        p.group_keys = [(2305, rng.randbytes(16))]
+        p.devices = [W.PDevice(0x1000, rng.randbytes(16), "mgmt", "dev-auth", 7)]
+        return p
+
+    def value_fold(label, path, attr, prefix_of_names, n_extra, project_name=""):
+        """extras sorted directly after `attr`, each record 1+32+1+94 = 128 octets; n_extra*128 must be 256*k."""
+        p = project()
+        p.name = project_name
+        root = W.build_tree(p, rng)
+        node = root.at(path)
+        names = [(prefix_of_names + f"{i}" + "x" * 32)[:32] for i in range(n_extra)]
+        for i, nm in enumerate(names):
+            node.attrs.append([nm, _letters(94, str(i))])
+        W.sign(root, W.password_hash(p.password))
+        t = root.copy()
+        tn = t.at(path)
+        folded = tn.get(attr) + "".join(chr(len(nm)) + nm + chr(94) + tn.get(nm) for nm in names)
+        tn.attrs = [a for a in tn.attrs if a[0] not in names]
+        tn.set(attr, folded)
+        cases.append((label, "attribute-value", p, root, t))
+
+    value_fold("root-Project-empty+2", (), "Project", "ProjectZ", 2)                    # the 256-octet case
+    value_fold("root-Project-nonempty+4", (), "Project", "ProjectZ", 4, "Haus am See")  # 512 more octets
+    value_fold("device-ToolKey+2", (3, 0), "ToolKey", "ZZ", 2)
+    value_fold("interface-group-Senders+2", (1, 0), "Senders", "Zz", 2)
+    value_fold("backbone-MulticastAddress+6", (0,), "MulticastAddress", "N", 6)         # 768 more octets
+
+    # attribute name absorbs: chr(65) v1(65) chr(65) X2(65) chr(65) v2(65) chr(57) X3(57) -> 66+66+66+58 = 256 more octets
+    p = project()
+    root = W.build_tree(p, rng)
+    x1, x2, x3 = "Q1", "Q2" + _letters(63, "n"), "Q3" + _letters(55, "m")
+    v1, v2, v3 = _letters(65, "v"), _letters(65, "w"), "tail"
+    root.attrs += [[x1, v1], [x2, v2], [x3, v3]]
+    W.sign(root, W.password_hash(p.password))
+    t = root.copy()
+    t.attrs = [a for a in t.attrs if a[0] not in (x1, x2, x3)]
+    t.attrs.append([x1 + chr(len(v1)) + v1 + chr(len(x2)) + x2 + chr(len(v2)) + v2 + chr(len(x3)) + x3, v3])
+    cases.append(("root-attribute-name+256", "attribute-name", p, root, t))
+
+    # element name absorbs all four strings of its two attributes: 66+66+66+58 = 256 more octets
+    p = project()
+    root = W.build_tree(p, rng)
+    n1, n2 = "A" + _letters(64, "p"), "B" + _letters(64, "q")
+    e1, e2 = _letters(65, "r"), _letters(57, "s")
+    root.children.append(W.Node("Extra", [[n1, e1], [n2, e2]]))
+    W.sign(root, W.password_hash(p.password))
+    t = root.copy()
+    t.children[-1] = W.Node("Extra" + chr(len(n1)) + n1 + chr(len(e1)) + e1 + chr(len(n2)) + n2 + chr(len(e2)) + e2)
+    cases.append(("extra-element-name+256", "element-name", p, root, t))
+    return cases
+
+
+def fold_rule(ctx, env) -> None:
+    """Merge following attribute records into one 256*k-octet longer string / split such a string into records."""
+    style = W.Style()
+    for label, kind, project, root, tampered in fold_cases():
+        # the construction itself: byte-identical under a length-mod-256 walk, different signed content
+        if W.signed_stream(tampered, "mod256")[0] != W.signed_stream(root, "mod256")[0] or W.canon(tampered) == W.canon(root):
+            ctx.inconclusive(f"fold case {label}: construction is not a mod-256 collision")
+            continue
+        wit = {"source": "fold", "case": label, "password": project.password, "folded_into": kind}
+        # 1. merge: original has only short strings, is valid whatever the convention, and must load
+        data = W.serialize(root, style)
+        outcome, res = env.load(data, project.password)
+        ctx.count("fold_originals_loaded_attempts")
+        if outcome != "loaded":
+            ctx.violation(f"valid-keyring-with-extra-attributes-rejected-{outcome.replace(':', '-')}", {**wit, "file_b64": base64.b64encode(data).decode()},
+                          f"fold case {label}: the validly signed original (short strings only) is not loaded: {outcome}")
+            continue
+        for fld, expected, got in compare_content(project, res)[:2]:
+            ctx.violation(f"content-mismatch-{fld}", {**wit, "field": fld, "expected": expected, "got": got},
+                          f"fold case {label}: loaded {fld} = {got!r}, file contains {expected!r}"[:400])
+        mdata = W.serialize(tampered, style)
+        o2, r2 = env.load(mdata, project.password)
+        ctx.count("fold_merge_tampers_judged")
+        ctx.distinct(("fold-merge", label, o2))
+        if o2 in ("loaded", "postfail"):
+            ctx.violation(f"tampered-merge-attribute-records-into-256k-longer-{kind}-verifies",
+                          {**wit, "outcome": o2, "file_b64": base64.b64encode(mdata).decode(), "original_b64": base64.b64encode(data).decode()},
+                          f"fold case {label}: following attributes removed and their length-prefixed records folded into one {kind} "
+                          f"(256*k octets longer), Signature kept: the file verifies ({o2})")
+        else:
+            ctx.count("fold_merge_tampers_refused")
+            ctx.count("rejected_with_" + (o2.split(":")[1] if ":" in o2 else "InvalidSecureConfiguration"))
+        # 2. split: the folded document as the ORIGINAL, signed under every length convention; if the loader accepts it,
+        #    the unfolded twin with the same signature must be refused
+        pwhash = W.password_hash(project.password)
+        for conv in W.LENGTH_CONVENTIONS:
+            orig = tampered.copy()
+            W.sign(orig, pwhash, conv)
+            o3, _ = env.load(W.serialize(orig, style), project.password)
+            ctx.count("fold_split_originals_attempts")
+            ctx.distinct(("fold-split-orig", label, conv, o3))
+            if o3 != "loaded":
+                ctx.count("fold_split_original_refused")
+                continue
+            ctx.count("fold_split_original_accepted")
+            twin = root.copy()
+            twin.set("Signature", orig.get("Signature"))
+            tdata = W.serialize(twin, style)
+            o4, _ = env.load(tdata, project.password)
+            ctx.count("fold_split_tampers_judged")
+            if o4 in ("loaded", "postfail"):
+                ctx.violation(f"tampered-split-256k-longer-{kind}-into-attribute-records-verifies-{conv}-signature",
+                              {**wit, "convention": conv, "outcome": o4, "file_b64": base64.b64encode(tdata).decode()},
+                              f"fold case {label}: a keyring with a 256*k-octet-longer {kind} is accepted under the '{conv}' length convention, and after "
+                              f"splitting that string into separate attribute records the same signature still verifies ({o4})")
+    if not ctx.counters.get("fold_split_original_accepted"):
+        ctx.count("fold_split_rule_vacuous_nothing_accepted")
+
+
 def long_value_rule(ctx, env) -> None:
     """Signed values longer than 255 octets (one length octet: what ETS signs is unknown).
 
@@ -818,7 +953,7 @@ def run(ctx):
     ctx.rule = ("one case = one keyring file (generated from a per-index seeded random project, or an ETS export) loaded untouched, with "
                 "wrong passwords and with every single mutation; distinct = (source, mutation kind, element, attribute, how, judged, outcome) "
                 "and (project shape, serialisation style)")
-    ctx.require("corner_sender_whitespace_variants", "long_value_originals_loaded_attempts", "corner_secrets_ending_in_their_pad_octet", "corner_keyrings", "corner_backbone_key_without_any_other_entry", "valid_files_loaded", "secrets_decrypted", "keys_decrypted", "sender_lists_compared", "wrong_password_rejected",
+    ctx.require("fold_merge_tampers_judged", "corner_sender_whitespace_variants", "long_value_originals_loaded_attempts", "corner_secrets_ending_in_their_pad_octet", "corner_keyrings", "corner_backbone_key_without_any_other_entry", "valid_files_loaded", "secrets_decrypted", "keys_decrypted", "sender_lists_compared", "wrong_password_rejected",
                 "tamper_mutations", "tamper_element-name", "tamper_attr-name", "tamper_attr-value", "tamper_swap-siblings",
                 "tamper_delete-element", "tamper_insert-element", "tamper_move-attr", "tamper_rejected_InvalidSecureConfiguration")
     files = ets_files()
@@ -844,6 +979,7 @@ def run(ctx):
                     ets_case(ctx, env, what[0], what[1])
             if ctx.shard == 0:
                 long_value_rule(ctx, env)
+                fold_rule(ctx, env)
     finally:
         env.close()
     ctx.assumptions.append("the signed content is what the ETS signature walk covers: element names, attributes other than xmlns/Signature "
@@ -858,6 +994,8 @@ def replay(ctx, witness):
                 gen_case(ctx, env, int(witness["case"]))
             elif witness.get("source") == "long-value":
                 long_value_rule(ctx, env)
+            elif witness.get("source") == "fold":
+                fold_rule(ctx, env)
             elif witness.get("source") == "corner":
                 for i, (label, project, order) in enumerate(W.corner_projects()):
                     if label == witness.get("case"):
